@@ -156,6 +156,11 @@ func refEncodeTLV(v reflect.Value, p berParams) (out refTLV, err error) {
 	switch {
 	case t == asn.BitStringType:
 		bs := v.Interface().(asn.BitString)
+		if uint64(len(bs.Bytes)) != (bs.BitLength+7)/8 {
+			// not a bit string value: the octets given do not hold BitLength bits (X.690 8.6.2: the unused-bits count refers
+			// to the last of exactly ceil(bits / 8) subsequent octets)
+			return out, errRefUnsupported
+		}
 		unused := byte((8 - bs.BitLength%8) % 8)
 		if refQuirk&qBitString8 != 0 && unused == 0 {
 			unused = 8
@@ -425,6 +430,8 @@ var bitAlphabet = []asn.BitString{
 	{Bytes: []byte{1, 2, 0x80}, BitLength: 17}, {Bytes: make([]byte, 32), BitLength: 256}, {Bytes: make([]byte, 200), BitLength: 1597},
 	// padding bits that are not zero (BER leaves them to the sender; what was marshalled must come back)
 	{Bytes: []byte{0xff}, BitLength: 1}, {Bytes: []byte{0xff, 0xff}, BitLength: 9},
+	// BitLength and octets that disagree: not a value, must be refused
+	{Bytes: nil, BitLength: 3}, {Bytes: []byte{0xf0}, BitLength: 20}, {Bytes: []byte{1, 2}, BitLength: 0}, {Bytes: []byte{1, 2}, BitLength: 3},
 }
 
 type builder struct {
@@ -432,6 +439,15 @@ type builder struct {
 	maxDepth int
 	small    bool // small alphabets (used inside long lists / deep nesting)
 	errCases bool // include values the codec must reject (nil mandatory members, bad Present)
+	big      bool // top-level strings: also lengths that need four length octets (2^24 and neighbours)
+}
+
+// lens: the string / octet string lengths tried at one leaf
+func (b *builder) lens() []int {
+	if b.big {
+		return append(append([]int(nil), strLens...), 1<<24-1, 1<<24, 1<<24+1)
+	}
+	return strLens
 }
 
 func (b *builder) str(n int) string { return strings.Repeat("x", n) }
@@ -444,7 +460,8 @@ func (b *builder) build(t reflect.Type, p berParams, path string, depth int) ref
 	case t == asn.ObjectIdentifierType:
 		v.Set(reflect.ValueOf(asn.ObjectIdentifier{0x2a, 0x03}))
 	case t == asn.OctetStringType:
-		n := strLens[b.c.Pick(len(strLens), path)]
+		ls := b.lens()
+		n := ls[b.c.Pick(len(ls), path)]
 		o := make(asn.OctetString, n)
 		for i := range o {
 			o[i] = byte(i*7 + 1)
@@ -461,7 +478,8 @@ func (b *builder) build(t reflect.Type, p berParams, path string, depth int) ref
 		}
 		v.SetInt(x)
 	case t.Kind() == reflect.String:
-		v.SetString(b.str(strLens[b.c.Pick(len(strLens), path)]))
+		ls := b.lens()
+		v.SetString(b.str(ls[b.c.Pick(len(ls), path)]))
 	case t.Kind() == reflect.Ptr:
 		if depth > b.maxDepth {
 			return v // nil
